@@ -313,6 +313,12 @@ impl<'p> Gen<'p> {
             let (kind, boxed, poison) = *self.rng.pick(&[(CollKind::Boxed, false, false), (CollKind::Boxed, true, false), (CollKind::Retry, false, false), (CollKind::Ref, true, false), (CollKind::Boxed, false, true), (CollKind::Retry, true, true)]);
             w.targets.push(TSpec::Slice { kind, boxed, members: ms, poison });
         }
+        // what an owned collection's members could be reached through, if anything (nothing, normally)
+        for u in 0..w.units.len() {
+            if w.units[u].by_ref && w.units[u].leaves.len() >= 2 && self.rng.chance(self.p.slice_pct * 2, 100) {
+                w.targets.push(TSpec::Exposed { unit: u });
+            }
+        }
         let nt = self.r(self.p.targets);
         let base_idx = w.targets.len();
         for i in 0..nt {
@@ -477,11 +483,29 @@ pub fn generate(profile: &str, seed: u64) -> Scenario {
         "C01" => {
             // one thread alone is part of the statement: a quarter of the runs are sequential
             let mut p = Params::base();
-            if Rng::new(seed ^ 0x11).chance(1, 4) {
+            let mut rng = Rng::new(seed ^ 0x11);
+            if rng.chance(1, 4) {
                 p.threads = (1, 1);
                 p.acqs = (3, 8);
             }
-            gen_general(profile, seed, &p)
+            let mut scn = gen_general(profile, seed, &p);
+            // keys must stay on their thread: now and then one thread tries to give its key away
+            // and another one, inside a hold, uses whatever key it was given on a lock it holds
+            if scn.program.threads.len() >= 2 && rng.chance(4, 100) {
+                scn.program.threads[0].insert(0, Step::Key(KeyOp::Send));
+                for th in scn.program.threads.iter_mut().skip(1) {
+                    for st in th.iter_mut() {
+                        if let Step::Acquire(a) = st {
+                            let n = scn.world.flatten(&scn.world.targets[a.target], None).len();
+                            if n > 0 && !a.api.is_try() {
+                                a.body.insert(0, BodyOp::UseForeignKey(rng.below(n)));
+                                a.body.insert(0, BodyOp::Yield);
+                            }
+                        }
+                    }
+                }
+            }
+            scn
         }
         "C02" => {
             // now and then a scoped closure returns the data it was given
